@@ -171,29 +171,34 @@ def rule_rd(prog: Program, report: Report) -> None:
     """An expression statement that calls a pure, value-returning function of
     the package discards the only effect the call has (immutable API:
     `frag.replace_child(...)` returns the new fragment)."""
+    from ..callgraph import callgraph
+    from .rl import compute_pure
+
     report.rules.append("RD")
     tm = prog.types
-    pure = compute_pure_names(prog)
+    pure_keys, _names = compute_pure(prog)
+    cg = callgraph(prog)
     n = 0
+    stmts = 0
     for fn in prog.all_funcs():
         for s in walk_own(fn.node):
             if isinstance(s, ast.Expr) and isinstance(s.value, ast.Call):
                 c = s.value
-                name = c.func.attr if isinstance(c.func, ast.Attribute) else (c.func.id if isinstance(c.func, ast.Name) else None)
-                if name is None or name not in pure or name[:1].isupper():
+                stmts += 1
+                callees = cg.resolve_call(fn, c)
+                if not callees or not all(g.key in pure_keys for g in callees):
+                    continue
+                if any(g.name == "__init__" for g in callees):
                     continue
                 names = tm.instance_names(fn.module, c)
                 if not names or names == ["None"] or "Any" in names:
                     continue
-                if isinstance(c.func, ast.Attribute):
-                    recv = tm.instance_names(fn.module, c.func.value)
-                    if not recv or not all(r.startswith("prosemirror.") or r.startswith("type[prosemirror.") for r in recv):
-                        continue  # a builtin's method that merely shares the name
                 if tm.is_noreturn(fn.module, c):
                     continue
                 n += 1
-                report.violate("RD", fn, s, f"result of `{src(c)[:80]}` discarded", f"`{name}` is side-effect free and returns a new `{'|'.join(x.rsplit('.', 1)[-1] for x in names)}`; as a statement the call does nothing (values are immutable - the result must be used)", what="results of pure value-returning calls are used")
-    report.ob("RD", "package", f"no expression statement discards the result of a pure value-returning package function ({len(pure)} pure names)")
+                report.violate("RD", fn, s, f"result of `{' '.join(src(c).split())[:80]}` discarded", f"`{callees[0].qual}` is side-effect free and returns a new `{'|'.join(x.rsplit('.', 1)[-1] for x in names)}`; as a statement the call does nothing (values are immutable - the result must be used)", what="results of pure value-returning calls are used")
+    report.ob("RD", "package", f"none of the {stmts} call statements discards the result of a pure value-returning package function ({len(pure_keys)} pure functions)")
+    report.count("RD call statements", stmts)
     report.count("RD discarded pure results", n)
 
 
